@@ -68,6 +68,14 @@ class Ctx:
         if nontrivial:
             h = hashlib.blake2b(repr(key).encode(), digest_size=8).hexdigest()
             self.nontrivial.add(h)
+        # option axes actually exercised (settings keys as produced by dtwmon.settings_key inside the case key)
+        if isinstance(key, tuple):
+            for e in key:
+                if type(e) is tuple and e and type(e[0]) is tuple and len(e[0]) == 2 and type(e[0][0]) is str:
+                    for kv in e:
+                        if type(kv) is tuple and len(kv) == 2 and type(kv[0]) is str and kv[1] is not None and kv[1] is not False:
+                            name = "axis:" + kv[0] + (":per-series" if type(kv[1]) is tuple else "")
+                            self.counters[name] = self.counters.get(name, 0) + 1
 
     def sample(self, obj, force=False):
         if len(self.samples) < MAX_SAMPLES or force:
